@@ -42,13 +42,24 @@ def handle : List Sexp → Option String
       some (out (GenK.timeCanon (← mx.toInt?) (← mn.toInt?) a))
   | [.atom "KREAL", .atom ms, .atom m, .atom eb, .atom e] => do
       some (out (GenK.realBin (← ms.toInt?) (← m.toInt?) (← eb.toInt?) (← e.toInt?)))
+  | .atom "KREALDEC" :: .atom fo :: args => do
+      let a ← intArgs args
+      some (out (GenK.realDec (← fo.toInt?) a))
   | .atom "KOIDDEC" :: args => do
       let a ← intArgs args
       some (out (GenK.oidDecode a))
+  | .atom "PYSL" :: .atom which :: .atom i :: args => do
+      let a ← intArgs args
+      let i ← i.toInt?
+      match which with
+      | "from" => some s!"ok{ints (Py.sliceFromG a i)}"
+      | "to" => some s!"ok{ints (Py.sliceToG a i)}"
+      | _ => none
   | [.atom "PYOP", .atom op, .atom a, .atom b] => do
       let a ← a.toInt?
       let b ← b.toInt?
       match op with
+      | "pow" => some (match Py.pow a b with | .ok r => s!"ok {r}" | .error _ => "err TypeError")
       | "and" => some s!"ok {Py.band a b}"
       | "or" => some s!"ok {Py.bor a b}"
       | "shr" => some s!"ok {Py.shr a b}"
